@@ -58,6 +58,9 @@ func (s *c08State) register(l *Live) {
 		c.Violate("snapshot-error", l.Snap.Err, s.wit(nil))
 		return
 	}
+	if l.Snap.String != l.Snap.Reloaded {
+		c.Violate("new-token-differs-from-its-own-bytes", fmt.Sprintf("the token made by %s prints differently in memory and after Unmarshal(Serialize())", l.Origin), s.wit(map[string]any{"in_memory": l.Snap.String, "re_loaded": l.Snap.Reloaded}))
+	}
 	ser, _ := hex.DecodeString(l.Snap.Ser)
 	d, err := wire.DecodeToken(ser)
 	if err != nil {
